@@ -75,7 +75,7 @@ pub fn run_scenario(scen: &Scenario) -> Report {
     cfg.max_steps = shuttle::MaxSteps::FailAfter(std::env::var("SIM_MAX_STEPS").ok().and_then(|s| s.parse().ok()).or_else(|| scen.extra.get("max_steps").and_then(|x| x.as_u64()).map(|x| x as usize)).unwrap_or_else(|| {
         // the step cap is the livelock detector; large workloads legitimately need more steps
         let items: usize = scen.steps.iter().map(|st| match st { Step::Commit { batch, .. } | Step::OvBuild { batch, .. } | Step::Prepare { batch, .. } => batch.items.len(), _ => 0 }).sum();
-        60_000_000 + items * 400_000
+        60_000_000 + items * 400_000 + scen.faults.len() * 6_000_000
     }));
     cfg.failure_persistence = shuttle::FailurePersistence::None;
     cfg.silence_warnings = true;
